@@ -610,6 +610,7 @@ class HistogramBase(abc.ABC):
             if amount is not None:
                 if not amount == int(amount):
                     raise ValueError(f"Amount must be integer, {amount} found.")
+                amount = int(amount)  # (2.0 or np.uint8(2) would not do as an index / divisor)
                 bin_map = [(i, i // amount) for i in range(self.shape[axis])]
             elif min_frequency is not None:
                 if self.ndim == 1:
